@@ -57,6 +57,7 @@ type Property struct {
 	Rule   string // how cases are generated and what makes one non-trivial
 	Gen    func(r *RNG, tier string) []Case
 	Replay func(line string) []Case // rebuild a case from a replay line
+	Cold   func(c *Collector)       // runs first, before anything else touched the library in this process (first-use behaviour)
 	// Chunks, when set, replaces Gen for the thorough tier: generators run one after the other so that an
 	// exhaustive domain never sits in memory at once.
 	Chunks func(r *RNG, tier string) []func() []Case
@@ -345,6 +346,7 @@ func main() {
 	seedF := flag.Int64("seed", -1, "seed (default: VERIF_SEED or 1)")
 	replay := flag.String("replay", "", "replay file")
 	raceOnly := flag.Bool("raceonly", false, "run only the stream-level scenarios (used by the -race build); no verdict")
+	coldOnly := flag.Bool("coldonly", false, "run only the property's first-use scenario in this fresh process and print its outcome (no driver, no verdict)")
 	flag.Parse()
 	if flag.NArg() < 1 {
 		fmt.Fprintln(os.Stderr, "usage: vh [-tier quick|thorough] [-seed N] [-replay file] <property>")
@@ -364,6 +366,18 @@ func main() {
 	}
 	if *seedF >= 0 {
 		seed = *seedF
+	}
+	if *coldOnly {
+		col := NewCollector(prop)
+		if p.Cold != nil {
+			p.Cold(col)
+		}
+		if len(col.oracleFail) > 0 {
+			fmt.Printf("COLD-FAIL %s\n", col.oracleFail[0].Note)
+		} else {
+			fmt.Println("COLD-OK")
+		}
+		return
 	}
 	start := time.Now()
 	drv, err := StartDriver()
@@ -400,6 +414,10 @@ func main() {
 	})
 	// race reports collected by ./check from the -race build (thorough tier)
 	addRaceReports(p, col)
+	// first use of the library in this process (lazily built tables, sync.Once-less initialisation), under concurrency
+	if p.Cold != nil {
+		p.Cold(col)
+	}
 	// corpus first (minimised past failures), then generated cases
 	runCorpus(p, col, drv)
 	effTier := *tier
